@@ -51,6 +51,12 @@ fn base_defs() -> Defs {
     d.add_enum("E", vec![("A", None), ("B", Some(vec![Ty::u8()])), ("C", Some(vec![Ty::Bool, Ty::u8()]))]);
     d.add_struct("S2", vec![("f", Ty::arr(Ty::u8(), 2)), ("e", Ty::Enum("E".into())), ("t", Ty::Tup(vec![Ty::Bool, Ty::Int(IntTy::I8)]))]);
     d.add_enum("E2", vec![("X", Some(vec![Ty::Tup(vec![Ty::u8(), Ty::Bool])])), ("Y", Some(vec![Ty::arr(Ty::Int(IntTy::I8), 2)])), ("Z", Some(vec![Ty::Struct("S".into())])), ("W", Some(vec![]))]);
+    // tag widths: 2 variants = 1 bit, 5 = 3 bits, 8 = 3 bits (all codes used), 9 = 4 bits; payloads of
+    // different sizes, so that the smaller variants are padded
+    d.add_enum("V2", vec![("A", Some(vec![Ty::u8()])), ("B", None)]);
+    d.add_enum("V5", vec![("A", None), ("B", Some(vec![Ty::Bool])), ("C", Some(vec![Ty::Int(IntTy::U16)])), ("D", None), ("E", Some(vec![Ty::u8(), Ty::Bool]))]);
+    d.add_enum("V8", (0..8).map(|k| (["A", "B", "C", "D", "E", "F", "G", "H"][k], if k % 3 == 1 { Some(vec![Ty::u8()]) } else { None })).collect());
+    d.add_enum("V9", (0..9).map(|k| (["A", "B", "C", "D", "E", "F", "G", "H", "I"][k], if k == 8 { Some(vec![Ty::Bool, Ty::Bool]) } else { None })).collect());
     d
 }
 
@@ -75,6 +81,9 @@ pub fn types(tier: Tier) -> Vec<Ty> {
         d1.push(Ty::Struct(n.into()));
     }
     d1.push(Ty::Enum("E".into()));
+    for n in ["V2", "V5", "V8", "V9"] {
+        d1.push(Ty::Enum(n.into()));
+    }
     let mut out = prims.clone();
     out.extend(d1.iter().cloned());
     // depth 2
